@@ -139,7 +139,19 @@ func cmdCheck(args []string) int {
 		if !hasProp(lm.Props, *prop) || (*only != "" && !strings.Contains(k, *only)) {
 			continue
 		}
+		if lm.Fact {
+			// justified by the function that establishes it: that function must exist, carry the same
+			// property and name the fact
+			if msg := p.factJustified(k, *prop); msg != "" {
+				u := &Unit{Name: "fact " + k, Kind: "lemma", Props: lm.Props, VC: newVC(k), Err: msg}
+				units = append(units, u)
+			}
+			continue
+		}
 		units = append(units, p.verifyLemma(lm))
+	}
+	if u := p.checkWriters(*prop); u != nil {
+		units = append(units, u)
 	}
 	vcSecs := time.Since(start).Seconds() - loadSecs
 	if len(units) == 0 {
@@ -155,56 +167,70 @@ func cmdCheck(args []string) int {
 		defTimeout = *timeoutFlag
 	}
 
-	// jobs
-	var jobsList []job
+	// phase 1: every obligation unsplit (short timeout when the unit declares splits);
+	// phase 2: the undecided ones are expanded into their split cases.
+	runJobs := func(list []job, phase1 bool) []*Result {
+		res := make([]*Result, len(list))
+		var wg sync.WaitGroup
+		sem := make(chan struct{}, *jobs)
+		for i := range list {
+			wg.Add(1)
+			sem <- struct{}{}
+			go func(i int) {
+				defer wg.Done()
+				defer func() { <-sem }()
+				j := list[i]
+				to := defTimeout
+				if j.unit.Timeout > 0 && *timeoutFlag == 0 {
+					to = j.unit.Timeout
+					if *tier == "thorough" {
+						to *= 10
+					}
+				}
+				if phase1 && len(j.unit.VC.Splits) > 0 && j.obl.Kind != "split" && j.obl.Kind != "cover" {
+					to = 3
+				}
+				q := j.unit.VC.Query(j.obl, p.prelude, j.split, true)
+				tag := j.obl.Name
+				if j.cs != "" {
+					tag += "/" + j.cs
+				}
+				r := solve(q, workDir, tag, to, seed)
+				r.Unit = j.unit
+				r.Obl = j.obl
+				r.Case = j.cs
+				if *keep && r.File == "" {
+					os.WriteFile(filepath.Join(workDir, sanitize(tag)+".smt2"), []byte(q), 0o644)
+				}
+				res[i] = r
+			}(i)
+		}
+		wg.Wait()
+		return res
+	}
+	var phase1 []job
 	for _, u := range units {
 		if u.Err != "" {
 			continue
 		}
-		cases := splitCases(u.VC.Splits)
 		for _, o := range u.VC.Obls {
-			if o.Kind == "split" || o.Kind == "cover" || len(cases) == 0 {
-				jobsList = append(jobsList, job{u, o, "", nil})
-				continue
-			}
-			for _, c := range cases {
-				jobsList = append(jobsList, job{u, o, c.name, c.asserts})
-			}
+			phase1 = append(phase1, job{u, o, "", nil})
 		}
 	}
-	results := make([]*Result, len(jobsList))
-	var wg sync.WaitGroup
-	sem := make(chan struct{}, *jobs)
-	for i := range jobsList {
-		wg.Add(1)
-		sem <- struct{}{}
-		go func(i int) {
-			defer wg.Done()
-			defer func() { <-sem }()
-			j := jobsList[i]
-			to := defTimeout
-			if j.unit.Timeout > 0 && *timeoutFlag == 0 {
-				to = j.unit.Timeout
-				if *tier == "thorough" {
-					to *= 10
-				}
-			}
-			q := j.unit.VC.Query(j.obl, p.prelude, j.split, true)
-			tag := j.obl.Name
-			if j.cs != "" {
-				tag += "/" + j.cs
-			}
-			r := solve(q, workDir, tag, to, seed)
-			r.Unit = j.unit
-			r.Obl = j.obl
-			r.Case = j.cs
-			if *keep && r.File == "" {
-				os.WriteFile(filepath.Join(workDir, sanitize(tag)+".smt2"), []byte(q), 0o644)
-			}
-			results[i] = r
-		}(i)
+	r1 := runJobs(phase1, true)
+	var results []*Result
+	var phase2 []job
+	for i, r := range r1 {
+		j := phase1[i]
+		if r.OK() || r.Status == "sat" || r.Status == "unsat" || len(j.unit.VC.Splits) == 0 || j.obl.Kind == "split" || j.obl.Kind == "cover" {
+			results = append(results, r)
+			continue
+		}
+		for _, c := range splitCases(j.unit.VC.Splits) {
+			phase2 = append(phase2, job{j.unit, j.obl, c.name, c.asserts})
+		}
 	}
-	wg.Wait()
+	results = append(results, runJobs(phase2, false)...)
 	solveSecs := time.Since(start).Seconds() - loadSecs - vcSecs
 
 	// verdicts
